@@ -460,7 +460,8 @@ def iter_settings(fobj: Union[bytes, BinaryIO]) -> Iterator["Setting"]:
             # Handle cases where User-Agent is too long in some configs
             # eg: fcece52fd030ca66043ae29af2116a79
             if setting.length == 0x80:
-                if len(setting.value.rstrip(b"\x00")) >= 0x80:
+                # too long: the 128 bytes hold no terminating NUL at all
+                if b"\x00" not in setting.value:
                     while True:
                         x = fobj.read(1)
                         if not x:
